@@ -164,24 +164,29 @@ Section Analyzer.
       exists ts, sn. auto.
     Qed.
 
-    (* collapsed highlights and HTML: non-overlapping analyzers *)
+    (* collapsed highlights and HTML: every analyzer (overlapping tokenizers included) *)
     Theorem generate_html_ok T fs terms max text prefix postfix sn :
-      non_overlapping T = true -> forallb no_split fs = true -> blen text <= USIZE_MAX ->
+      forallb no_split fs = true -> blen text <= USIZE_MAX ->
       generate T fs terms max text = Some sn ->
       ranges_disjoint 0 (collapse (sn_hl sn)) /\
       Forall (fun r => boundary (sn_fragment sn) (fst r) /\ boundary (sn_fragment sn) (snd r)) (collapse (sn_hl sn)) /\
       (forall p, covered p (collapse (sn_hl sn)) <-> covered p (sn_hl sn)) /\
-      (* and the raw ranges returned by highlighted() are themselves sorted and disjoint *)
-      ranges_disjoint 0 (sn_hl sn) /\
       exists h, to_html prefix postfix sn = Some h.
     Proof.
-      intros HT Hn Hlen H. unfold generate in H. destruct (analyze T fs text) as [ts|] eqn:Ea; [|discriminate].
+      intros Hn Hlen H. unfold generate in H. destruct (analyze T fs text) as [ts|] eqn:Ea; [|discriminate].
       destruct (analyze_ok T fs text ts Hlen Ea) as (H1 & _ & H3 & _).
-      pose proof (analyze_disjoint T fs text ts HT Hn Hlen Ea) as Hd.
-      pose proof (disjoint_to_sorted ts 0 Hd) as Hts.
-      destruct (snippet_ranges_ok score szero sadd spos scmp lower_str text ts terms max prefix postfix sn H1 H3 Hts H) as (R1 & R2 & R3 & R4).
+      destruct (snippet_ranges_ok score szero sadd spos scmp lower_str text ts terms max prefix postfix sn H1 H3 H) as (R1 & R2 & R3 & R4).
       repeat split; try assumption; try apply R3.
-      2:{ destruct (to_html prefix postfix sn) as [h|]; [exists h; reflexivity|contradiction]. }
+      destruct (to_html prefix postfix sn) as [h|]; [exists h; reflexivity|contradiction].
+    Qed.
+
+    (* the raw ranges returned by highlighted() are themselves sorted and disjoint for non-overlapping analyzers *)
+    Theorem generate_raw_disjoint T fs terms max text sn :
+      non_overlapping T = true -> forallb no_split fs = true -> blen text <= USIZE_MAX ->
+      generate T fs terms max text = Some sn -> ranges_disjoint 0 (sn_hl sn).
+    Proof.
+      intros HT Hn Hlen H. unfold generate in H. destruct (analyze T fs text) as [ts|] eqn:Ea; [|discriminate].
+      pose proof (analyze_disjoint T fs text ts HT Hn Hlen Ea) as Hd.
       eapply (raw_disjoint_from_search score szero sadd spos scmp lower_str text ts terms max sn Hd). exact H.
     Qed.
   End Snip.
